@@ -24,6 +24,10 @@ func newLink(e *Engine, s *SimSess) link {
 	switch {
 	case tr == "" || tr == "local":
 		return newLocalLink(e, s)
+	case tr == "rsraw":
+		return newRawBytesLink(e, s)
+	case tr == "wsraw-text" || tr == "wsraw-binary":
+		return newRawWSLink(e, s, tr)
 	case strings.HasPrefix(tr, "rs-"):
 		return newRawsocketLink(e, s, tr[3:])
 	case strings.HasPrefix(tr, "ws-"):
@@ -51,6 +55,29 @@ type localLink struct {
 	paused bool
 	closed bool
 	dropped bool
+	mu     sync.Mutex
+	buf    []wamp.Message // filled by the pump while a probe runs
+}
+
+// pump keeps reading the inbox until quit is closed, the way a responsive
+// client would, while the engine's main goroutine is busy with a probe.
+func (l *localLink) pump(quit <-chan struct{}, done *sync.WaitGroup) {
+	defer done.Done()
+	for {
+		select {
+		case m, ok := <-l.c.Recv():
+			l.mu.Lock()
+			if !ok {
+				l.closed = true
+				l.mu.Unlock()
+				return
+			}
+			l.buf = append(l.buf, m)
+			l.mu.Unlock()
+		case <-quit:
+			return
+		}
+	}
 }
 
 func newLocalLink(e *Engine, s *SimSess) *localLink {
@@ -69,9 +96,13 @@ func (l *localLink) send(m wamp.Message, quit <-chan struct{}) bool {
 }
 
 func (l *localLink) drain() ([]wamp.Message, bool) {
-	var out []wamp.Message
-	if l.closed {
-		return nil, true
+	l.mu.Lock()
+	out := l.buf
+	l.buf = nil
+	closed := l.closed
+	l.mu.Unlock()
+	if closed {
+		return out, true
 	}
 	for {
 		select {
@@ -411,6 +442,11 @@ func newWebsocketLink(e *Engine, s *SimSess, ser string) *websocketLink {
 	l := &websocketLink{ws: cws, ser: serializerFor(ser), payload: payload, in: newInbuf()}
 	go func() {
 		peer := transport.NewWebsocketPeer(sws, serializerFor(ser), payload, e.Log, 0, qsize)
+		if s.Cfg.TransportAuth {
+			// what WebsocketServer passes along when cookie tracking / request capture is on
+			_ = e.R.AttachClient(peer, wamp.Dict{"type": "websocket", "auth": wamp.Dict{"cookie": "SECRET-COOKIE", "nextcookie": "SECRET-NEXT", "request": "SECRET-REQUEST"}})
+			return
+		}
 		_ = e.R.Attach(peer)
 	}()
 	go func() {
@@ -452,3 +488,167 @@ func (l *websocketLink) send(m wamp.Message, quit <-chan struct{}) bool {
 func (l *websocketLink) drain() ([]wamp.Message, bool) { return l.in.drain() }
 func (l *websocketLink) drop()                         { _ = l.ws.Close() }
 func (l *websocketLink) pause(on bool)                 { l.in.pause(on) }
+
+
+// ---- raw byte links (C04/C15 wire-level generators) ------------------------------
+
+// rawBytesLink is a rawsocket connection whose every byte, including the
+// handshake, comes from the case. Whatever the server writes is drained.
+type rawBytesLink struct {
+	conn    net.Conn
+	mu      sync.Mutex
+	got     []byte
+	closed  bool
+	dropped bool
+}
+
+func newRawBytesLink(e *Engine, s *SimSess) *rawBytesLink {
+	cc, sc := net.Pipe()
+	l := &rawBytesLink{conn: cc}
+	qsize := s.Cfg.QSize
+	if qsize == 0 {
+		qsize = 64
+	}
+	recvLimit := s.Cfg.RecvLimit
+	go func() {
+		peer, err := transport.AcceptRawSocket(sc, e.Log, recvLimit, qsize)
+		if err != nil {
+			return
+		}
+		_ = e.R.Attach(peer)
+	}()
+	go func() {
+		buf := make([]byte, 4096)
+		for {
+			n, err := cc.Read(buf)
+			l.mu.Lock()
+			l.got = append(l.got, buf[:n]...)
+			if len(l.got) > 1<<20 {
+				l.got = l.got[len(l.got)-(1<<20):]
+			}
+			if err != nil {
+				l.closed = true
+				l.mu.Unlock()
+				return
+			}
+			l.mu.Unlock()
+		}
+	}()
+	return l
+}
+
+type rawBytesMsg struct{ B []byte }
+
+func (r *rawBytesMsg) MessageType() wamp.MessageType { return wamp.MessageType(-2) }
+
+func (l *rawBytesLink) send(m wamp.Message, quit <-chan struct{}) bool {
+	rb, ok := m.(*rawBytesMsg)
+	if !ok {
+		return true
+	}
+	done := make(chan error, 1)
+	go func() {
+		_, err := l.conn.Write(rb.B)
+		done <- err
+	}()
+	select {
+	case err := <-done:
+		return err == nil
+	case <-quit:
+		_ = l.conn.SetWriteDeadline(time.Unix(1, 0))
+		<-done
+		return false
+	}
+}
+
+func (l *rawBytesLink) drain() ([]wamp.Message, bool) {
+	l.mu.Lock()
+	defer l.mu.Unlock()
+	return nil, l.closed
+}
+
+func (l *rawBytesLink) received() []byte {
+	l.mu.Lock()
+	defer l.mu.Unlock()
+	return append([]byte(nil), l.got...)
+}
+
+func (l *rawBytesLink) drop() {
+	l.mu.Lock()
+	d := l.dropped
+	l.dropped = true
+	l.mu.Unlock()
+	if !d {
+		_ = l.conn.Close()
+	}
+}
+func (l *rawBytesLink) pause(bool) {}
+
+// rawWSLink sends arbitrary websocket frames (type + payload) to a real websocketPeer.
+type rawWSLink struct {
+	ws     *memWS
+	closed bool
+	mu     sync.Mutex
+}
+
+type rawWSMsg struct {
+	Type int
+	B    []byte
+}
+
+func (r *rawWSMsg) MessageType() wamp.MessageType { return wamp.MessageType(-3) }
+
+func newRawWSLink(e *Engine, s *SimSess, tr string) *rawWSLink {
+	payload, ser := 2, "msgpack"
+	if tr == "wsraw-text" {
+		payload, ser = 1, "json"
+	}
+	if s.Cfg.Serializer != "" {
+		ser = s.Cfg.Serializer
+	}
+	cws, sws := newMemWSPair("wamp.2." + ser)
+	l := &rawWSLink{ws: cws}
+	qsize := s.Cfg.QSize
+	if qsize == 0 {
+		qsize = 64
+	}
+	go func() {
+		peer := transport.NewWebsocketPeer(sws, serializerFor(ser), payload, e.Log, 0, qsize)
+		_ = e.R.Attach(peer)
+	}()
+	go func() {
+		for {
+			if _, _, err := cws.ReadMessage(); err != nil {
+				l.mu.Lock()
+				l.closed = true
+				l.mu.Unlock()
+				return
+			}
+		}
+	}()
+	return l
+}
+
+func (l *rawWSLink) send(m wamp.Message, quit <-chan struct{}) bool {
+	rm, ok := m.(*rawWSMsg)
+	if !ok {
+		return true
+	}
+	select {
+	case l.ws.wr <- wsFrame{rm.Type, rm.B}:
+		return true
+	case <-quit:
+		return false
+	case <-l.ws.closed:
+		return false
+	case <-l.ws.peerClosed:
+		return false
+	}
+}
+func (l *rawWSLink) drain() ([]wamp.Message, bool) {
+	l.mu.Lock()
+	defer l.mu.Unlock()
+	return nil, l.closed
+}
+func (l *rawWSLink) drop()      { _ = l.ws.Close() }
+func (l *rawWSLink) pause(bool) {}
